@@ -5,7 +5,7 @@ CONSTANTS
   CapUnlocks = 16
   MaxTxs = 16
   Debug = TRUE
-  Bind = {"faults", "head", "prepare", "process", "determinism"}
+  Bind = {"faults", "head", "prepare", "process", "finalize", "determinism"}
 INIT TInit
 NEXT TNext
 INVARIANTS HandedOnce
